@@ -164,6 +164,22 @@ CHECKS = {
         "that the Monte-Carlo mean converges to the geometric mean width (Cauchy's formula) is NOT proved - polygons at 5 sigma "
         "are correspondence evidence only; numpy's default_rng is the source of directions.",
         "5/C18"),
+    "C13": (
+        "Lean 4 proof (samples are convex combinations of cloud points; mixture over null-overlapping pieces is proportional to volume) + predicates on dreye's samples",
+        "Theorems in lean/Dreye/Props/C13.lean prove: barycentric weights applied to simplex vertices that are cloud points give a "
+        "convex combination of the cloud (with C03: a capture reproducible by in-bound intensities); L1-normalised non-negative "
+        "engine points and volume fractions are valid probability vectors; and (measure theory, ENNReal) choosing piece i with "
+        "probability vol(S_i)/vol(U S) and a uniform point inside it lands in any measurable region A with probability "
+        "vol(A n U S)/vol(U S) whenever the pieces overlap in null sets. Every run checks on dreye's samples: exact count, "
+        "inside every facet of an independently computed hull, identical arrays for identical seeds, l1 totals, chromatic "
+        "membership for l1 samples, and for the default engine with n = 10^4 the sample mean against the exact centroid and "
+        "half-space fractions against volume fractions at 6 sigma.",
+        "Trusted: Lean kernel; that Delaunay simplices tile the hull with null overlaps, that Generator.choice realises the "
+        "probabilities and that Dirichlet(1,..,1) weights are uniform on a simplex are engine facts (named hypotheses of the "
+        "uniformity theorem); uniformity of the real sampler is statistical evidence (fixed seeds, 6 sigma), not proof; "
+        "determinism per seed is checked by byte comparison; no model/code correspondence beyond these predicates (the "
+        "function exposes no intermediate values).",
+        "5/C13"),
 }
 
 NOT_YET = "check not built yet in this round of work (planned in DESIGN.md section 5); no claim is made"
